@@ -71,32 +71,46 @@ impl ReplHighlighter {
     }
 }
 
+fn is_opening_bracket(token: &Token) -> bool {
+    matches!(
+        token.token_type,
+        TokenType::LeftParen | TokenType::HashParen
+    )
+}
+
+fn is_closing_bracket(token: &Token) -> bool {
+    token.token_type == TokenType::RightParen
+}
+
 fn find_matching_bracket<'a>(
     tokens: &'a [Token],
     bracket: (usize, &'a Token),
 ) -> Option<&'a Token> {
-    let (have, want, mut iter): (TokenType, TokenType, Box<dyn Iterator<Item = &Token>>) =
-        match bracket.1.token_type {
-            TokenType::RightParen => (
-                TokenType::RightParen,
-                TokenType::LeftParen,
+    type Pred = fn(&Token) -> bool;
+    let (have, want, mut iter): (Pred, Pred, Box<dyn Iterator<Item = &Token>>) =
+        if is_closing_bracket(bracket.1) {
+            (
+                is_closing_bracket,
+                is_opening_bracket,
                 Box::new(tokens[..(bracket.0)].iter().rev()),
-            ),
-            TokenType::LeftParen => (
-                TokenType::LeftParen,
-                TokenType::RightParen,
+            )
+        } else if is_opening_bracket(bracket.1) {
+            (
+                is_opening_bracket,
+                is_closing_bracket,
                 Box::new(tokens[(bracket.0 + 1)..].iter()),
-            ),
-            _ => return None,
+            )
+        } else {
+            return None;
         };
 
     let mut stack = 0;
     for it in &mut *iter {
-        if it.token_type == have {
+        if have(it) {
             stack += 1;
         }
 
-        if it.token_type == want {
+        if want(it) {
             if stack == 0 {
                 return Some(it);
             } else {
